@@ -99,6 +99,8 @@ def reference_run(w, storage="dict"):
             inputs = build_inputs(w)
             res = sim.kernel.run(lambda: p.map(inputs, parallel=False, storage=storage, **map_kwargs(w)))
         ref.R0 = {o: canon(res[o].output) for o in all_outputs(w)}
+        ref.order = list(res.keys())
+        ref.functions = {o: res[o].function for o in res}
         ref.calls = list(sim.calls)
         ref.C0 = collections.Counter(c.key() for c in sim.calls)
     except Exception as e:  # noqa: BLE001 - refused candidates are discarded (DESIGN 2.5)
